@@ -865,6 +865,9 @@ def run_property(prop, tier, seed, jobs_n):
             except Undecided as e:
                 native = {'error': str(e)[-2000:]}
         modular = bool(ob.get('replace')) or (bool(u.get('loops')) and not ob.get('no_loop_contracts')) or ob.get('mode') == 'dfcc'
+        # a unit that replaces REAL callees by contract stubs is modular too: natively the real callees run, so cbmc's input
+        # (chosen against the stubs' nondeterminism) need not fail there
+        modular = modular or any(not re.match(r'^(StubReader|LogWriter|LogBuilder|Allocator)__', st) for st in (u.get('stubs') or []))
         path = write_replay(prop, r, native)
         if r.get('search_only') and not reproduced:
             undecided.append({'unit': r['unit'], 'ob': r['ob'], 'config': r['config'],
